@@ -586,6 +586,11 @@ func verifKV(c verifCase) any {
 			if err := c12raw.C12Restart(s, stls); err != nil {
 				return map[string]any{"error": "restart: " + err.Error()}
 			}
+			// drain the store's pooled connections to that shard (same cached go-redis client, by address)
+			probe := conf[op.W%len(shards)].Config.NewRedis()
+			for k := 0; k < 12; k++ {
+				probe.Ping()
+			}
 			steps = append(steps, map[string]any{"skip": "restart"})
 			continue
 		case "#mark":
